@@ -63,16 +63,33 @@ Theorem c15_consistent_winding_preserved : forall m : mesh,
   locally_consistent C m -> has_correct_orientation m = true /\ update m = m.
 Proof. exact (consistent_preserved C). Qed.
 
-(* flood_fill_consistent.  [sg] is a consistent orientation of the triangles [ts0] (each triangle kept or flipped,
-   no two triangles run along a common edge in the same direction; by a global flip it can be taken to agree with
-   triangle 0, where the code's fill starts).  Proved for the faithful model of the fill (stack order, visited map,
-   adjacency = counter of shared vertices reaching 2, decision by has_same_edge against the CURRENT orientation of the
-   popped triangle): every triangle the fill visits ends in the orientation [sg], every other triangle is untouched.
-   Hence all pairs of visited triangles are consistent afterwards.
-   PARTIAL in one respect: that the fill visits every triangle of an edge-connected mesh (completeness of the
-   depth-first search with fuel = number of triangles) is not proved; c15_flood_fill_all_visited gives the conclusion
-   under that hypothesis.  The repair also never does anything but swap the first two vertices of triangles. *)
-Theorem c15_flood_fill_consistent_partial : forall ts0 sg : list tri,
+(* flood_fill_consistent, for the faithful model of the fill (stack order, visited list, adjacency = counter of shared
+   vertices reaching 2, decision by has_same_edge against the CURRENT orientation of the popped triangle, fuel = number
+   of triangles).  Hypotheses: triangles with three different vertices; edge-orientable = some choice [sg] of
+   "keep or flip" per triangle has no two triangles running along a common edge in the same direction; edge-connected =
+   every triangle is reachable from triangle 0 (where the code starts) by steps between triangles sharing two vertices.
+   Conclusion: whenever the orientation check fires (hco_fast = has_correct_orientation is false) the repaired list is an
+   orientation of the same triangles in which EVERY pair of triangles is consistent.
+   Ingredients: two-colouring step (decide_flip), completeness of the depth-first traversal within [length ts] rounds
+   (fill_full: stack/visited invariant, closure of the visited set under adjacency), global flip (an orientation that
+   agrees with triangle 0 exists).  Not covered: that the check fires for every inconsistent orientable mesh. *)
+Theorem c15_flood_fill_consistent : forall (ix : nat -> N) (ts0 : list tri),
+  (forall i, i < length ts0 -> nondeg (tnth ts0 i)) ->
+  (exists sg, orientation_of ts0 sg /\ consistent_all sg) ->
+  (forall j, j < length ts0 -> reach ts0 j) ->
+  hco_fast ix ts0 = false ->
+  orientation_of ts0 (correct_local ix ts0) /\ consistent_all (correct_local ix ts0).
+Proof. exact correct_local_makes_consistent. Qed.
+
+Theorem c15_flood_fill_consistent_fill : forall ts0 : list tri,
+  (forall i, i < length ts0 -> nondeg (tnth ts0 i)) ->
+  (exists sg, orientation_of ts0 sg /\ consistent_all sg) ->
+  (forall j, j < length ts0 -> reach ts0 j) -> 0 < length ts0 ->
+  orientation_of ts0 (fill (length ts0) [0] [0] ts0) /\ consistent_all (fill (length ts0) [0] [0] ts0).
+Proof. exact fill_makes_consistent. Qed.
+
+(* without connectivity: every triangle the fill visits ends in the orientation [sg], the others are untouched *)
+Theorem c15_flood_fill_visited_invariant : forall ts0 sg : list tri,
   (forall i, i < length ts0 -> nondeg (tnth ts0 i)) ->
   orientation_of ts0 sg -> consistent_all sg -> 0 < length ts0 -> tnth sg 0 = tnth ts0 0 ->
   exists vis, In 0 vis /\ inv ts0 sg vis (fill (length ts0) [0] [0] ts0).
@@ -86,7 +103,7 @@ Theorem c15_flood_fill_only_flips_partial : forall (ix : nat -> N) (ts : list tr
   Forall2 same_or_flipped ts (correct_local ix ts).
 Proof. exact correct_local_sof. Qed.
 
-(* with "connected" read as connected through vertices the statement is false for the code: the fill walks across
+(* the connectivity hypothesis is about edges: with "connected" read as connected through vertices the statement is false for the code: the fill walks across
    edges only.  Bow-tie: triangle (0,1,2) touches the pair (2,3,4),(3,4,5) at vertex 2; the pair is inconsistent, a
    consistent orientation exists (flip the last triangle), every edge belongs to at most two triangles, and
    correct_local_orientation leaves the mesh as it is.  Replayed on the implementation by checks/c15.py. *)
@@ -112,6 +129,25 @@ Proof. exact (add_vertices_fresh C ceq rnd c0). Qed.
 Theorem c15_geometry_never_holds_equal_vertices : forall g v,
   geom_distinct C ceq c0 g -> geom_distinct C ceq c0 (fst (add_vertex C ceq g v)).
 Proof. exact (add_vertex_distinct C ceq rnd c0). Qed.
+
+(* premise-free behaviour of the readers' point insertion, into any geometry (fresh: g = []; a stand-alone Mesh that
+   has loaded a file before keeps that file's points in its private geometry): the geometry stays free of equal
+   vertices, every point of the file is represented by a vertex equal to it, and (operator== being an equivalence)
+   points equal to each other - within the file or to a point already there - become one vertex *)
+Theorem c15_add_vertices_any_points : forall (vs : list (V3 C)) (g : list (V3 C)), geom_distinct C ceq c0 g ->
+  let (g', im) := add_vertices C ceq g vs in
+  geom_distinct C ceq c0 g' /\ length im = length vs /\ (exists ext, g' = g ++ ext) /\
+  forall k, k < length vs -> nth k im 0 < length g' /\
+    (nth (nth k im 0) g' (v0 C c0) = nth k vs (v0 C c0) \/ veq C ceq (nth (nth k im 0) g' (v0 C c0)) (nth k vs (v0 C c0)) = true).
+Proof. exact (add_vertices_spec C ceq rnd c0). Qed.
+
+Theorem c15_load_merges_repeated_points : forall (vs g : list (V3 C)),
+  (forall a, veq C ceq a a = true) -> (forall a b, veq C ceq a b = true -> veq C ceq b a = true) ->
+  (forall a b c, veq C ceq a b = true -> veq C ceq b c = true -> veq C ceq a c = true) ->
+  geom_distinct C ceq c0 g ->
+  forall i j, i < length vs -> j < length vs -> veq C ceq (nth i vs (v0 C c0)) (nth j vs (v0 C c0)) = true ->
+  nth i (snd (add_vertices C ceq g vs)) 0 = nth j (snd (add_vertices C ceq g vs)) 0.
+Proof. exact (repeated_points_merge C ceq rnd c0). Qed.
 
 (* ---- merge (om_mesh_concat), after the repair of Mesh::add_mesh *)
 Theorem c15_merge_keeps_triangles : forall m1 m2 m3 : mesh, merge C ceq c0 m1 m2 = Ok m3 ->
@@ -155,13 +191,17 @@ Print Assumptions c15_reloaded_same_triangles.
 Print Assumptions c15_reloaded_rounded_coordinates.
 Print Assumptions c15_consistent_winding_preserved.
 Print Assumptions c15_flood_fill_only_flips_partial.
-Print Assumptions c15_flood_fill_consistent_partial.
+Print Assumptions c15_flood_fill_consistent.
+Print Assumptions c15_flood_fill_consistent_fill.
+Print Assumptions c15_flood_fill_visited_invariant.
 Print Assumptions c15_flood_fill_all_visited.
 Print Assumptions c15_flood_fill_consistent_refuted.
 Print Assumptions c15_fast_orientation_check_equiv.
 Print Assumptions c15_position_table_equiv.
 Print Assumptions c15_add_vertices_distinct.
 Print Assumptions c15_geometry_never_holds_equal_vertices.
+Print Assumptions c15_add_vertices_any_points.
+Print Assumptions c15_load_merges_repeated_points.
 Print Assumptions c15_merge_keeps_triangles.
 Print Assumptions c15_merge_shares_coincident_vertices.
 Print Assumptions c15_vtk_writer_token_structure.
@@ -197,3 +237,21 @@ Theorem c15_inconsistent_mesh_is_reoriented :
       has_correct_orientation m' = true.
 Proof. exact square_reoriented. Qed.
 Print Assumptions c15_inconsistent_mesh_is_reoriented.
+
+(* a file listing a point twice loads into a fresh mesh object and into a used one as the same mesh (local triangles,
+   coordinates, 5 distinct vertices for 6 entries); only the numbering inside the private geometry differs *)
+Example c15_repeated_point_fresh_and_reused :
+  exists s a b, save_tri nat rnd_ex 0 fan = Ok s /\
+    load_tri nat Nat.eqb s = Ok a /\ reload_tri nat Nat.eqb [(0, 0, 0); (7, 7, 7)] s = Ok b /\
+    length (gv a) = 5 /\ mv a = [0; 0; 1; 2; 3; 4] /\
+    length (gv b) = 6 /\ mv b = [2; 2; 0; 3; 4; 5] /\
+    local_triangles a = local_triangles b /\ coords nat 0 a = coords nat 0 b.
+Proof. exact seam_fresh_and_reused. Qed.
+
+(* the hypotheses of c15_flood_fill_consistent are satisfiable: the square (0,1,2),(1,2,3) *)
+Example c15_flood_fill_hypotheses_satisfiable :
+  let ts := [(0, 1, 2); (1, 2, 3)] in
+  (forall i, i < length ts -> nondeg (tnth ts i)) /\
+  (exists sg, orientation_of ts sg /\ consistent_all sg) /\
+  (forall j, j < length ts -> reach ts j) /\ hco_fast N.of_nat ts = false.
+Proof. exact square_fill_hyps. Qed.
